@@ -3,14 +3,12 @@ C13, aliasing: ONE file bound to TWO outputs.  What the code guarantees for
 the second occurrence, exactly.
 -/
 import Martian.PostProcess
+import Martian.PostProcessDefs
 import Proofs.PostProcess
 
 namespace Martian.PostProcess
 
 /-! ## `filepath.Rel` followed by `filepath.Join`/`Clean` gives the target back -/
-
-/-- a path component that `Clean` keeps as it is -/
-def cleanComp (c : String) : Bool := c ≠ ".." && c ≠ "." && c ≠ ""
 
 theorem resolve_clean (d cs : Path) (h : ∀ c ∈ cs, cleanComp c = true) : resolve d cs = d ++ cs := by
   induction cs generalizing d with
@@ -97,10 +95,5 @@ theorem moveOutFile_alias (ps outs2 : Path) (name2 s : String) (p d1 : Path) (e 
     | file c => simp [chaseFuel, chase, hget]
     | dir => simp [chaseFuel, chase, hget]
   simp [moveOutFile, hs, hp, hlink, copyOutSymlink, hin, hfree, hres, hchase]
-
-/-- the string of a JSON string value -/
-def J.strVal : J → Option String
-  | .str s => some s
-  | _ => none
 
 end Martian.PostProcess
